@@ -49,12 +49,14 @@ def main(tier):
 INDUCTION = (
     "remove_subtree(x): Inv at the loop head = J holds; x has no parent and no siblings; the cursor is x or a proper descendant of x (or None); every node "
     "removed so far was in subtree_H0(x); nodes outside subtree_H0(x) have not been written since the prefix. Prefix: the code up to the first arrival at the "
-    "loop head equals detach(x) (model gap) and sets cursor = x, which establishes Inv. Step table (decided by E2 on a generic cursor m under Inv): "
-    "first_child(m) = Some(c): no write, cursor' = c (a child of m, hence in the subtree); first_child(m) = None: the effect equals the model remove(m) of a leaf "
-    "(which touches only m, its siblings and its parent - all inside the subtree when m != x, only x when m == x), exactly m is freed, cursor' = parent(m), which is "
-    "a node of the subtree when m != x and None when m == x. Hence Inv is preserved, only nodes of the subtree are removed or written, and the loop can only exit "
-    "after x itself has been removed; x is removed only when it is a leaf, i.e. after all its children were removed; by induction on the height every descendant "
-    "is removed. Termination: each iteration either descends one level (bounded by the finite acyclic depth, J3) or removes one live node.")
+    "(outermost) loop head equals detach(x) (model gap) and sets cursor = x, which establishes Inv. Step table (decided by E2 on a generic cursor m under Inv, "
+    "whatever the shape of the loop body - inner loops are summarised as walks along acyclic link chains): an iteration that frees nothing writes nothing and "
+    "moves the cursor to a proper descendant of m; an iteration that frees nodes has exactly the effect of the model remove(f) on leaves f at or below m "
+    "(which touches only f, its siblings and its parent - all inside the subtree when f != x, only x when f == x), and afterwards either the cursor is a node of "
+    "the subtree that still exists, or the loop is left / the cursor exhausted - which happens only when x itself was freed. Hence Inv is preserved, only nodes of "
+    "the subtree are removed or written, and the loop can only exit after x has been removed; x is removed only when it is a leaf, i.e. after all its children "
+    "were removed; by induction on the height every descendant is removed. Termination: each iteration either moves strictly down (bounded by the finite "
+    "acyclic depth, J3) or removes one live node.")
 
 
 def subtree(run, profiles):
@@ -73,27 +75,35 @@ def subtree(run, profiles):
                 run.ob("subtree-prefix", "remove_subtree/%s prefix == detach(x), reaches the loop" % prof, ok,
                        key="remove_subtree|prefix is not detach(x) followed by the loop (%s)" % rec["exit"], detail=e2props.detail_of(rec), nontrivial=nt)
             elif ph == "iteration":
-                back = rec["exit"] == "loophead"
-                run.ob("subtree-step", "remove_subtree/%s iteration returns to the loop head" % prof, back,
+                fin = rec["exit"] in ("loophead", "return")
+                run.ob("subtree-step", "remove_subtree/%s iteration ends at the loop head or returns" % prof, fin,
                        key="remove_subtree|an iteration leaves the loop: %s %s" % (rec["exit"], e2props.panic_kind(rec.get("msg")) if rec.get("msg") else ""),
                        detail=e2props.detail_of(rec), loc=rec.get("at"), nontrivial=nt)
-                if not back:
+                if not fin:
                     continue
                 jbad = sorted({j[0] for j in rec.get("J", [])} | {j[0] for j in rec.get("J3", [])})
                 run.ob("subtree-step", "remove_subtree/%s iteration preserves J" % prof, not jbad,
                        key="remove_subtree|iteration breaks the loop invariant J: %s" % ";".join(jbad), detail=e2props.detail_of(rec), nontrivial=nt)
                 m = rec.get("x")
-                if rec.get("pre_first_child") is not None:
+                freed = rec.get("freed") or []
+                md = rec.get("model_diff")
+                nxt = rec.get("next_cursor")
+                if not freed:
                     n["desc"] += 1
-                    ok = not rec.get("overlay") and not rec.get("freed") and rec.get("next_cursor") == rec.get("pre_first_child")
-                    run.ob("subtree-step", "remove_subtree/%s: inner node: no write, cursor' = first child" % prof, ok,
+                    ok = not rec.get("overlay") and rec["exit"] == "loophead" and rec.get("next_in_subtree") and rec.get("progress")
+                    run.ob("subtree-step", "remove_subtree/%s: an iteration that frees nothing writes nothing and moves the cursor strictly down" % prof, ok,
                            key="remove_subtree|step on an inner node is not 'descend to the first child without writing'", detail=e2props.detail_of(rec), nontrivial=nt)
                 else:
                     n["leaf"] += 1
-                    md = rec.get("model_diff")
-                    ok = md == [] and rec.get("freed") == [m] and rec.get("next_cursor") == rec.get("pre_parent")
-                    why = "model" if md != [] else ("freed" if rec.get("freed") != [m] else "cursor")
-                    run.ob("subtree-step", "remove_subtree/%s: leaf: effect == remove(m), exactly m freed, cursor' = parent(m)" % prof, ok,
+                    ok_model = md == [] and rec.get("freed_below_cursor") is True
+                    if rec["exit"] == "loophead":
+                        # the walk goes on: inside the subtree, on a node that still exists - or the cursor is exhausted, which is allowed only once x is gone
+                        ok_next = (rec.get("next_in_subtree") and rec.get("next_is_live")) or (nxt is None and rec.get("root_freed"))
+                    else:
+                        ok_next = bool(rec.get("root_freed"))
+                    ok = ok_model and ok_next
+                    why = "model" if md != [] else ("freed" if not rec.get("freed_below_cursor") else "cursor")
+                    run.ob("subtree-step", "remove_subtree/%s: effect == remove of leaves below the cursor; the walk continues inside the subtree and ends only after x is gone" % prof, ok,
                            key="remove_subtree|step on a leaf differs from 'remove it and continue with its parent' (%s)" % why, detail=e2props.detail_of(rec), nontrivial=nt)
                     if ok and len(run.samples) < 8:
                         run.sample(e2props.sample_of(rec))
@@ -102,7 +112,6 @@ def subtree(run, profiles):
                 run.ob("subtree-exit", "remove_subtree/%s: exhausted cursor -> returns without further writes" % prof, ok,
                        key="remove_subtree|loop exit writes or does not return", detail=e2props.detail_of(rec), nontrivial=nt)
         run.floor("remove_subtree prefix cases (%s)" % prof, n["prefix"], 10)
-        run.floor("remove_subtree inner-node steps (%s)" % prof, n["desc"], 2)
-        run.floor("remove_subtree leaf steps (%s)" % prof, n["leaf"], 20)
-        run.floor("remove_subtree exit cases (%s)" % prof, n["exit"], 1)
+        run.floor("remove_subtree iterations that free a node (%s)" % prof, n["leaf"], 20)
+        run.floor("remove_subtree iterations that only descend, or loop exits (%s)" % prof, n["desc"] + n["exit"] + len([r for r in recs if r.get("phase") == "iteration" and r.get("exit") == "return"]), 2)
     run.extra["written_induction_remove_subtree"] = INDUCTION
